@@ -1,3 +1,7 @@
 import Generated.Tables
 import Generated.Vocab
 import Generated.Options
+import Generated.RWLockProtocol
+import Generated.LockDiscipline
+import Generated.RWLockCert_2
+import Generated.RWLockCert_3
